@@ -442,6 +442,15 @@ theorem FreeLine.speeds_meaning (X0 : Xf K) (u0 u1 v0 v1 v2 : K) :
     Hmul (FreeLine.H X0) [u0, u1, v0, v1, v2] = ⟨X0.R.mulVec ⟨u0, u1, 0⟩, ⟨v0, v1, v2⟩⟩ := by
   simp only [FreeLine.H, LineOrientation.H]; mob_unfold; ring_all
 
+theorem LineOrientation.fitU_roundtrip (X0 : Xf K) (h : IsRot X0.R) (u0 u1 : K) :
+    LineOrientation.fitU X0 (Hmul (LineOrientation.H X0) [u0, u1]) = [u0, u1] := by
+  rw [LineOrientation.speeds_meaning]
+  simp only [LineOrientation.fitU, h.mulVec_tr_mulVec]
+theorem FreeLine.fitU_roundtrip (X0 : Xf K) (h : IsRot X0.R) (u0 u1 v0 v1 v2 : K) :
+    FreeLine.fitU X0 (Hmul (FreeLine.H X0) [u0, u1, v0, v1, v2]) = [u0, u1, v0, v1, v2] := by
+  rw [FreeLine.speeds_meaning]
+  simp only [FreeLine.fitU, LineOrientation.fitU, h.mulVec_tr_mulVec, List.cons_append, List.nil_append]
+
 /-! ## Non-vacuity: rational points satisfying the hypotheses -/
 example : Trig (3 / 5 : ℚ) (4 / 5) := by unfold Trig; norm_num
 example : IsRot (Pin.X (3 / 5 : ℚ) (4 / 5)).R := Pin.X_isRot (by unfold Trig; norm_num)
